@@ -36,12 +36,12 @@ vars == <<st, par, kids, buf, cur, todo, stopReq, published, delivered, start>>
 Range(s) == {s[i] : i \in 1..Len(s)}
 IsPrefix(a, b) == Len(a) =< Len(b) /\ \A i \in 1..Len(a) : a[i] = b[i]
 
-(* What subscriber s is owed: every event the root received after position start[s].              *)
 (* start[s] is fixed when s is created inside its parent's loop:                                    *)
-(*   child of the root  : Len(published)        -- "each event published after its subscription"   *)
-(*   clone of s0        : start[s0] + Len(delivered[s0]) -- "the events the original had not yet   *)
-(*                        handed out plus all later ones" (an event the root has received but s0    *)
-(*                        has not yet is a later one: s0 forwards it to the clone when it arrives). *)
+(*   subscriber of the bus: Len(published) -- it is owed "each event published after its            *)
+(*                          subscription", i.e. every event the root loop receives from then on;    *)
+(*   clone of s0          : Len(delivered[s0]) -- it is owed "the events the original had not yet   *)
+(*                          handed out plus all later ones" (an event the root has received but s0  *)
+(*                          has not yet is a later one: s0 forwards it to the clone on arrival).    *)
 Owed(s) == SubSeq(published, start[s] + 1, Len(published))
 
 InSelect(n) == st[n] = "run" /\ todo[n] = {}
@@ -116,8 +116,7 @@ Subscribe(n) ==
        /\ par' = [par EXCEPT ![c] = n]
        /\ kids' = [kids EXCEPT ![n] = @ \cup {c}]
        /\ buf' = [buf EXCEPT ![c] = buf[n]]
-       /\ start' = [start EXCEPT ![c] = IF n = Root THEN Len(published)
-                                         ELSE start[n] + Len(delivered[n])]
+       /\ start' = [start EXCEPT ![c] = IF n = Root THEN Len(published) ELSE Len(delivered[n])]
   /\ UNCHANGED <<cur, todo, stopReq, published, delivered>>
 
 (* Close() called on the bus or on a subscriber by some goroutine (it then waits for Done). *)
@@ -171,19 +170,49 @@ Next == Internal \/ Env \/ Finished
 Spec == Init /\ [][Next]_vars /\ WF_vars(Internal)
 
 -----------------------------------------------------------------------------
-(* C15, safety part: what a reader has taken plus what is still buffered for it is, at every   *)
-(* moment, a prefix of what the subscriber is owed -- so no event is delivered twice, out of   *)
-(* publication order, or without being owed, and none is skipped in favour of a later one.     *)
-ExactlyOnceInOrder == \A s \in Subs : IsPrefix(delivered[s] \o buf[s], Owed(s))
+(* What subscriber s has handed out or still holds for its reader, in order. *)
+Stream(s) == delivered[s] \o buf[s]
+Drop(k, q) == SubSeq(q, k + 1, Len(q))
+NoDup(q) == \A i, j \in 1..Len(q) : q[i] = q[j] => i = j
+PosOf(e) == CHOOSE i \in 1..Len(published) : published[i] = e
+
+(* C15 for a subscriber of the bus: the events of its stream that were published after its     *)
+(* subscription are, at every moment, a prefix of the publications after its subscription (in   *)
+(* publication order, none skipped), and no event occurs twice.  The statement does not speak   *)
+(* about events published before the subscription, so they are filtered out here rather than    *)
+(* forbidden (the model never delivers any: see PositionalLemma).                               *)
+AfterSubOf(q, s) == SelectSeq(q, LAMBDA e : e \in Range(published) /\ PosOf(e) > start[s])
+SubscriberOKOn(q, s) == /\ \A i \in 1..Len(q) : q[i] \in Range(published)
+                        /\ NoDup(q)
+                        /\ IsPrefix(AfterSubOf(q, s), Owed(s))
+AfterSub(s) == AfterSubOf(Stream(s), s)
+SubscriberOK(s) == SubscriberOKOn(Stream(s), s)
+
+(* C15 for a clone c of s, made when s had handed out start[c] events: c's stream is exactly s's *)
+(* stream from there on ("the events the original had not yet handed out plus all later ones"). *)
+CloneOKOn(qc, qp, c) == IsPrefix(qc, Drop(start[c], qp))
+CloneOK(c) == CloneOKOn(Stream(c), Stream(par[c]), c)
+
+ExactlyOnceInOrder ==
+  \A s \in Subs : st[s] # "unused" => IF par[s] = Root THEN SubscriberOK(s) ELSE CloneOK(s)
 
 (* C15, no-loss part: once no fan-out is in progress, every running subscriber holds (delivered *)
 (* or buffered, ready for its reader) everything it is owed, however little the others read.    *)
-(* Nothing is asserted for a subscriber that has been asked to close (DESIGN 5.1).              *)
-(* ... nor for its clones, which are closed with it, nor for anybody once the bus is closing.   *)
+(* Nothing is asserted for a subscriber that has been asked to close (DESIGN 5.1), nor for its  *)
+(* clones, which are closed with it, nor for anybody once the bus is closing.                   *)
 RECURSIVE Live(_)
 Live(n) == /\ st[n] = "run" /\ ~stopReq[n]
            /\ n # Root => Live(par[n])
-NoLoss == AllIdle => \A s \in Subs : Live(s) => delivered[s] \o buf[s] = Owed(s)
+Complete(s) == IF par[s] = Root THEN AfterSub(s) = Owed(s)
+               ELSE Stream(s) = Drop(start[s], Stream(par[s]))
+NoLoss == AllIdle => \A s \in Subs : Live(s) => Complete(s)
+
+(* Model-only lemma tying the two formulations together: in the model every stream is exactly   *)
+(* a prefix of the publications after an absolute position.                                     *)
+RECURSIVE AbsStart(_)
+AbsStart(s) == IF par[s] = Root THEN start[s] ELSE AbsStart(par[s]) + start[s]
+PositionalLemma == \A s \in Subs : st[s] # "unused" =>
+                     IsPrefix(Stream(s), Drop(AbsStart(s), published))
 
 (* C15, "closing never blocks": whenever something is unfinished (a fan-out in progress, a close *)
 (* requested or under way) some internal step can complete -- without any help from readers,    *)
